@@ -321,8 +321,16 @@ def readonly_guard(ctx, res):
                 seen.add("delete")
                 res.violation("setattr_readonly:delete", f"{CREL}:{stores[0][3]}",
                               "deleting a read-only attribute reaches a store")
-            if p.outcome[0] == "RETURN" and not p.outcome[1].startswith(
-                    "delete_readonly_error(") and "delete-ok" not in seen:
+            from ..capi import API as _API
+            from .cerr import analyse_errors as _ae, call_name as _cn
+            _always = _ae(ctx)[2]
+            raises = p.outcome[1].startswith("delete_readonly_error(") or (
+                _cn(p.outcome[1]) in _always) or (
+                p.outcome[1].lstrip("(").startswith("-")
+                and any(e[0] in _API and _API[e[0]]["sets_error"]
+                        for e in p.events))
+            if p.outcome[0] == "RETURN" and not raises \
+                    and "delete-ok" not in seen:
                 seen.add("delete-ok")
                 res.violation("setattr_readonly:delete-allowed",
                               f"{CREL}:{p.lines[-1]}",
